@@ -47,6 +47,9 @@ type FuncContract struct {
 	assigns  []string
 	loopInvs map[int][]*clause
 	loopDecr map[int][]*clause
+	loopAssume map[int][]*clause
+	tailrec    map[int]*tailrecSpec
+	changesWorld bool
 	decreases []*clause
 	tco      int
 	tcoVars  []string
@@ -93,6 +96,12 @@ type Lemma struct {
 	hyps  []*clause
 	goal  *clause
 	props []string
+}
+
+type tailrecSpec struct {
+	rel    *clause // relation over the head state with the free name OUT
+	cont   *clause // outcome of continuing the loop (evaluated at the back edge)
+	result *clause // outcome at a return
 }
 
 type atAssume struct {
@@ -185,7 +194,7 @@ func (cs *Contracts) parseFile(p *packages.Package, file string) {
 		line int
 	}
 	var raws []raw
-	kw := regexp.MustCompile(`^(invariant|func|field|spec|lemma|requires|ensures|hint|decreases|at|preserves|holds|locks|panics|assigns|loop|tco|pure|trusted|inline|hyp|goal|props)\b`)
+	kw := regexp.MustCompile(`^(invariant|func|field|spec|lemma|requires|ensures|hint|decreases|at|preserves|holds|locks|changes|panics|assigns|loop|tco|pure|trusted|inline|hyp|goal|props)\b`)
 	for i, ln := range strings.Split(string(data), "\n") {
 		t := strings.TrimSpace(ln)
 		if !strings.HasPrefix(t, "//@") {
@@ -242,7 +251,7 @@ func (cs *Contracts) parseFile(p *packages.Package, file string) {
 			} else {
 				key = p.PkgPath + "." + name
 			}
-			cur = &FuncContract{pkg: p, key: key, name: name, params: splitNames(m[2]), results: splitNames(m[3]), loopInvs: map[int][]*clause{}, loopDecr: map[int][]*clause{}, file: file, line: r.line}
+			cur = &FuncContract{pkg: p, key: key, name: name, params: splitNames(m[2]), results: splitNames(m[3]), loopInvs: map[int][]*clause{}, loopDecr: map[int][]*clause{}, loopAssume: map[int][]*clause{}, file: file, line: r.line}
 			cs.funcs[key] = cur
 			curLemma = nil
 		case "field":
@@ -252,7 +261,7 @@ func (cs *Contracts) parseFile(p *packages.Package, file string) {
 				cur = nil
 				continue
 			}
-			cur = &FuncContract{pkg: p, key: m[1], name: m[1], params: splitNames(m[2]), results: splitNames(m[3]), loopInvs: map[int][]*clause{}, loopDecr: map[int][]*clause{}, file: file, line: r.line, isField: true}
+			cur = &FuncContract{pkg: p, key: m[1], name: m[1], params: splitNames(m[2]), results: splitNames(m[3]), loopInvs: map[int][]*clause{}, loopDecr: map[int][]*clause{}, loopAssume: map[int][]*clause{}, file: file, line: r.line, isField: true}
 			cs.fields[m[1]] = cur
 			curLemma = nil
 		case "spec":
@@ -365,6 +374,10 @@ func (cs *Contracts) parseFile(p *packages.Package, file string) {
 						cur.decreases = append(cur.decreases, c)
 					}
 				}
+			case "changes":
+				if rest == "world" {
+					cur.changesWorld = true
+				}
 			case "holds":
 				cur.holds = mkClause(rest)
 			case "locks":
@@ -419,6 +432,31 @@ func (cs *Contracts) parseFile(p *packages.Package, file string) {
 					if c := mkClause(src); c != nil {
 						cur.loopInvs[n] = append(cur.loopInvs[n], c)
 					}
+				} else if len(fs) >= 3 && (fs[1] == "tailrec" || fs[1] == "continue" || fs[1] == "result") {
+					n, _ := strconv.Atoi(fs[0])
+					src := strings.TrimSpace(strings.SplitN(rest, fs[1], 2)[1])
+					if cur.tailrec == nil {
+						cur.tailrec = map[int]*tailrecSpec{}
+					}
+					if cur.tailrec[n] == nil {
+						cur.tailrec[n] = &tailrecSpec{}
+					}
+					if c := mkClause(src); c != nil {
+						switch fs[1] {
+						case "tailrec":
+							cur.tailrec[n].rel = c
+						case "continue":
+							cur.tailrec[n].cont = c
+						case "result":
+							cur.tailrec[n].result = c
+						}
+					}
+				} else if len(fs) >= 3 && fs[1] == "assume" {
+					n, _ := strconv.Atoi(fs[0])
+					src := strings.TrimSpace(strings.SplitN(rest, "assume", 2)[1])
+					if c := mkClause(src); c != nil {
+						cur.loopAssume[n] = append(cur.loopAssume[n], c)
+					}
 				} else if len(fs) >= 3 && fs[1] == "decreases" {
 					n, _ := strconv.Atoi(fs[0])
 					src := strings.TrimSpace(strings.SplitN(rest, "decreases", 2)[1])
@@ -451,6 +489,10 @@ func (cs *Contracts) resolveType(p *packages.Package, src string, file string, l
 		return types.Typ[types.Int]
 	case "string":
 		return types.Typ[types.String]
+	case "World":
+		return tWorld
+	case "Outcome":
+		return tOutcome
 	}
 	try := func(pkg *types.Package) types.Type {
 		tv, err := types.Eval(token.NewFileSet(), pkg, token.NoPos, src)
